@@ -1,0 +1,122 @@
+//go:build verif
+
+// Contracts checked by /verif/govc (comment-only file; compiled only with -tags verif).
+
+package core
+
+// ---------------------------------------------------------------- context resolution (C06)
+
+//@ pred rootAllowed(t int) = t == 0 || t == 1 || t == 5 || t == 7 || (8 <= t && t <= 12) || t == 19 || t == 20 || t == 21 || t == 22 || t == 28
+//@ pred isHTTPMethod(t int) = 8 <= t && t <= 12
+
+// ghost depth of a directive in the tree; TreeWF makes the Parent chains well-founded (termination of the walks)
+//@ ghostfield directive.Directive.depth int
+//@ pred TreeWF() = forall x *directive.Directive :: x != nil && x.Parent != nil ==> 0 <= x.Parent.depth && x.Parent.depth < x.depth
+
+//@ func (*JApiCore).processContext
+//@   tag C06 C01 C02
+//@   let anc(k int) *directive.Directive : anc(0) == core.currentContextDirective ; forall k :: k >= 0 ==> anc(k+1) == (anc(k) == nil ? nil : anc(k).Parent)
+//@   requires core != nil && root != nil && DirWF(d) && d != core.currentContextDirective && 0 <= d.depth
+//@   requires TreeWF() && (forall x *directive.Directive :: x != nil ==> x.Parent != d) && (core.currentContextDirective != nil ==> 0 <= core.currentContextDirective.depth)
+//@   modifies core.currentContextDirective, d.Parent, d.depth, *root, heap(Directive.Children)
+//@   ghostensures ret == nil && d.Parent != old(d.Parent) ==> d.depth == d.Parent.depth + 1
+//@   ghostensures !(ret == nil && d.Parent != old(d.Parent)) ==> d.depth == old(d.depth)
+//@   ensures TreeWF()
+//@   ensures ret == nil ==> core.currentContextDirective == d
+//@   ensures ret == nil ==> exists k :: k >= 0
+//@        && (forall j :: 0 <= j && j < k ==> anc(j) != nil && !allowedCtx(anc(j).type_, d.type_) && !anc(j).HasExplicitContext)
+//@        && ( (anc(k) != nil && allowedCtx(anc(k).type_, d.type_)
+//@                && !(isHTTPMethod(d.type_) && has(d.namedParameters, "Path") && d.namedParameters["Path"] != "" && anc(k).type_ == 7)
+//@                && d.Parent == anc(k) && seqapp(anc(k).Children, old(anc(k).Children), d) && *root == old(*root)
+//@                && (forall x *directive.Directive :: x != anc(k) ==> x.Children == old(x.Children)))
+//@          || (anc(k) != nil && allowedCtx(anc(k).type_, d.type_)
+//@                && isHTTPMethod(d.type_) && has(d.namedParameters, "Path") && d.namedParameters["Path"] != "" && anc(k).type_ == 7
+//@                && !anc(k).HasExplicitContext
+//@                && d.Parent == old(d.Parent) && seqapp(*root, old(*root), d) && (forall x *directive.Directive :: x.Children == old(x.Children)))
+//@          || (anc(k) == nil && rootAllowed(d.type_)
+//@                && d.Parent == old(d.Parent) && seqapp(*root, old(*root), d) && (forall x *directive.Directive :: x.Children == old(x.Children))) )
+//@   ensures ret != nil ==> exists k :: k >= 0
+//@        && (forall j :: 0 <= j && j < k ==> anc(j) != nil && !allowedCtx(anc(j).type_, d.type_) && !anc(j).HasExplicitContext)
+//@        && ( (anc(k) == nil && !rootAllowed(d.type_))
+//@          || (anc(k) != nil && !allowedCtx(anc(k).type_, d.type_) && anc(k).HasExplicitContext)
+//@          || (anc(k) != nil && allowedCtx(anc(k).type_, d.type_) && anc(k).HasExplicitContext
+//@                && isHTTPMethod(d.type_) && has(d.namedParameters, "Path") && d.namedParameters["Path"] != "" && anc(k).type_ == 7) )
+//@   ensures ret != nil ==> d.Parent == old(d.Parent) && *root == old(*root) && (forall x *directive.Directive :: x.Children == old(x.Children))
+//@   ensures [C02] ret != nil ==> ret.file == d.keywordCoords.file && ret.index == d.keywordCoords.begin
+//@   loop 1 invariant core.currentContextDirective == anc(iter) && d.Parent == old(d.Parent) && *root == old(*root)
+//@   loop 1 invariant forall x *directive.Directive :: x.Children == old(x.Children)
+//@   loop 1 invariant forall j :: 0 <= j && j < iter ==> anc(j) != nil && !allowedCtx(anc(j).type_, d.type_) && !anc(j).HasExplicitContext
+//@   loop 1 invariant core.currentContextDirective != nil ==> 0 <= core.currentContextDirective.depth
+//@   loop 1 decreases core.currentContextDirective == nil ? 0 : core.currentContextDirective.depth + 1
+//@   loop 1 frame core
+
+//@ func (*JApiCore).japiError
+//@   tag C02 C01
+//@   requires core != nil && core.scanner != nil && core.scanner.file != nil && i <= len(core.scanner.file.content)
+//@   modifies nothing
+//@   ensures fresh(ret) && ret.file == core.scanner.file && ret.index == i
+//@ func (*scanner.Scanner).File
+//@   inline
+//@ func (*scanner.Scanner).CurrentIndex
+//@   inline
+
+//@ func (*JApiCore).closeLastExplicitContext
+//@   tag C06 C01 C02
+//@   let anc(k int) *directive.Directive : anc(0) == core.currentContextDirective ; forall k :: k >= 0 ==> anc(k+1) == (anc(k) == nil ? nil : anc(k).Parent)
+//@   requires core != nil && core.scanner != nil && core.scanner.file != nil && 1 <= core.scanner.curIndex && core.scanner.curIndex - 1 <= len(core.scanner.file.content)
+//@   requires TreeWF() && (core.currentContextDirective != nil ==> 0 <= core.currentContextDirective.depth)
+//@   modifies core.currentContextDirective
+//@   ensures ret == nil ==> exists k :: k >= 0 && anc(k) != nil && anc(k).HasExplicitContext && core.currentContextDirective == anc(k).Parent
+//@        && (forall j :: 0 <= j && j < k ==> anc(j) != nil && !anc(j).HasExplicitContext)
+//@   ensures ret != nil ==> exists k :: k >= 0 && anc(k) == nil && (forall j :: 0 <= j && j < k ==> anc(j) != nil && !anc(j).HasExplicitContext)
+//@   ensures [C02] ret != nil ==> ret.file == core.scanner.file && ret.index == core.scanner.curIndex - 1
+//@   loop 1 invariant core.currentContextDirective == anc(iter) && (core.currentContextDirective != nil ==> 0 <= core.currentContextDirective.depth)
+//@   loop 1 invariant forall j :: 0 <= j && j < iter ==> anc(j) != nil && !anc(j).HasExplicitContext
+//@   loop 1 decreases core.currentContextDirective == nil ? 0 : core.currentContextDirective.depth + 1
+//@   loop 1 frame core
+
+//@ func (*JApiCore).HasUnclosedExplicitContext
+//@   tag C06 C01
+//@   let anc(k int) *directive.Directive : anc(0) == core.currentContextDirective ; forall k :: k >= 0 ==> anc(k+1) == (anc(k) == nil ? nil : anc(k).Parent)
+//@   requires core != nil && TreeWF() && (core.currentContextDirective != nil ==> 0 <= core.currentContextDirective.depth)
+//@   modifies nothing
+//@   ensures ret ==> exists k :: k >= 0 && anc(k) != nil && anc(k).HasExplicitContext
+//@   ensures !ret ==> exists k :: k >= 0 && anc(k) == nil && (forall j :: 0 <= j && j < k ==> anc(j) != nil && !anc(j).HasExplicitContext)
+//@   loop 1 invariant d == anc(iter) && (d != nil ==> 0 <= d.depth)
+//@   loop 1 invariant forall j :: 0 <= j && j < iter ==> anc(j) != nil && !anc(j).HasExplicitContext
+//@   loop 1 decreases d == nil ? 0 : d.depth + 1
+
+// ---------------------------------------------------------------- the scan loop: directive assembly (C06, C01, C02)
+
+// state of the core between two lexemes
+//@ pred CoreScanInv(core *JApiCore) = core != nil && core.scanner != nil && NextInv(core.scanner) && core.scannersStack != nil && TreeWF()
+//@     && (core.currentContextDirective != nil ==> 0 <= core.currentContextDirective.depth)
+//@     && (core.currentDirective != nil ==> DirWF(core.currentDirective) && core.currentDirective != core.currentContextDirective && 0 <= core.currentDirective.depth
+//@            && (forall x *directive.Directive :: x != nil ==> x.Parent != core.currentDirective))
+
+//@ func (*JApiCore).processCurrentDirective
+//@   tag C06 C01 C02
+//@   requires CoreScanInv(core)
+//@   modifies core.currentContextDirective, core.currentDirective, core.directives, heap(Directive.Parent), heap(Directive.depth), heap(Directive.Children)
+//@   ensures ret == nil ==> CoreScanInv(core) && core.currentDirective == nil
+//@   ensures ret == nil && old(core.currentDirective) != nil ==> core.currentContextDirective == old(core.currentDirective)
+//@   ensures ret == nil && old(core.currentDirective) == nil ==> core.currentContextDirective == old(core.currentContextDirective)
+//@   ensures [C02] ret != nil ==> old(core.currentDirective) != nil && ret.file == old(core.currentDirective).keywordCoords.file && ret.index == old(core.currentDirective).keywordCoords.begin
+
+//@ func (*JApiCore).processContextEnd
+//@   tag C06 C01 C02
+//@   requires CoreScanInv(core) && 1 <= core.scanner.curIndex
+//@   modifies core.currentContextDirective, core.currentDirective, core.directives, heap(Directive.Parent), heap(Directive.depth), heap(Directive.Children)
+//@   ensures ret == nil ==> CoreScanInv(core) && core.currentDirective == nil
+
+//@ func (*JApiCore).processEOF
+//@   tag C06 C01 C02
+//@   requires CoreScanInv(core) && 1 <= core.scanner.curIndex
+//@   modifies core.currentContextDirective, core.currentDirective, core.directives, heap(Directive.Parent), heap(Directive.depth), heap(Directive.Children)
+//@   ensures ret == nil ==> CoreScanInv(core) && core.currentDirective == nil
+
+//@ func (*JApiCore).processContextBegin
+//@   tag C06 C01
+//@   requires CoreScanInv(core) && core.currentDirective != nil
+//@   modifies core.currentDirective.HasExplicitContext
+//@   ensures core.currentDirective.HasExplicitContext
